@@ -103,4 +103,4 @@ def patch(
         yield None
     finally:
         stack.close()
-        fs.duck_conn.close()
+        fs.close()
